@@ -5,6 +5,7 @@ import (
 	"go/constant"
 	"go/token"
 	"go/types"
+	"os"
 	"regexp"
 	"sort"
 	"strings"
@@ -361,6 +362,9 @@ func c07Numbers(c *Ctx) {
 		bits, _ := constInt(pi.Call.Args[2])
 		okInt = b == 0 && bits == 64
 	}
+	// the same four facts on the constructor's specialised outcomes, for when the conversion sits in helpers
+	sInt, sFloat, sIntVal, sFloatVal := c07NumbersSpec(f)
+	okInt = okInt || sInt
 	r.Ob("NUMBERS", "newNumberLiteral parses integers with strconv.ParseInt(text, 0, 64)", t.Pos(f.Pos()), okInt, "base 0 (decimal, 0x…), 64 bits")
 	okFloat := pf != nil && pi != nil && strings.HasSuffix(path(pf.Call.Args[0]), ".Val")
 	if okFloat {
@@ -381,15 +385,16 @@ func c07Numbers(c *Ctx) {
 		}
 		okFloat = okFloat && g
 	}
+	okFloat = okFloat || sFloat
 	r.Ob("NUMBERS", "newNumberLiteral falls back to strconv.ParseFloat(text, 64) only when ParseInt failed", t.Pos(f.Pos()), okFloat, "every literal that is a valid int64 must stay an integer")
 	// integer result is ParseInt's value, float result ParseFloat's
 	sum := summarizeCtor(f)
-	r.Ob("NUMBERS", "integer literal carries ParseInt's value", t.Pos(f.Pos()), setStr(sum.Fields["IntegerLiteral.Val"]) == "call:ParseInt", "IntegerLiteral.Val <- "+setStr(sum.Fields["IntegerLiteral.Val"]))
+	r.Ob("NUMBERS", "integer literal carries ParseInt's value", t.Pos(f.Pos()), setStr(sum.Fields["IntegerLiteral.Val"]) == "call:ParseInt" || sIntVal, "IntegerLiteral.Val <- "+setStr(sum.Fields["IntegerLiteral.Val"]))
 	fsum := sum
 	if pfVia != nil {
 		fsum = summarizeCtor(pfVia.Call.StaticCallee())
 	}
-	r.Ob("NUMBERS", "float literal carries ParseFloat's value", t.Pos(f.Pos()), setStr(fsum.Fields["FloatLiteral.Val"]) == "call:ParseFloat", "FloatLiteral.Val <- "+setStr(fsum.Fields["FloatLiteral.Val"]))
+	r.Ob("NUMBERS", "float literal carries ParseFloat's value", t.Pos(f.Pos()), setStr(fsum.Fields["FloatLiteral.Val"]) == "call:ParseFloat" || sFloatVal, "FloatLiteral.Val <- "+setStr(fsum.Fields["FloatLiteral.Val"]))
 }
 
 func c07Keywords(c *Ctx) {
@@ -486,45 +491,79 @@ func c07Assemble(c *Ctx, uq *ssa.Function) {
 			}
 			// every UTF-8 encoding of the value happens only when multibyte is true; a single-byte append exists
 			encs, okEnc, bytes := 0, true, 0
+			// the places to look at: the caller itself, and a helper that is handed the value (and the multibyte flag)
+			type asmCtx struct {
+				g          *ssa.Function
+				val, multi ssa.Value
+			}
+			ctxs := []asmCtx{{f, val, valueOrNil(multi)}}
 			allInstrs(f, func(in ssa.Instruction) {
-				switch x := in.(type) {
-				case *ssa.Call:
-					cal := x.Call.StaticCallee()
-					if cal == nil || cal.Pkg == nil || cal.Pkg.Pkg.Path() != "unicode/utf8" || !strings.HasPrefix(cal.Name(), "EncodeRune") && !strings.HasPrefix(cal.Name(), "AppendRune") {
-						return
+				hc, ok := in.(*ssa.Call)
+				if !ok || hc == call {
+					return
+				}
+				h := hc.Call.StaticCallee()
+				if h == nil || h.Pkg != f.Pkg || len(h.Blocks) == 0 {
+					return
+				}
+				ac := asmCtx{g: h}
+				for k, a := range hc.Call.Args {
+					if k >= len(h.Params) {
+						break
 					}
-					uses := false
-					for _, a := range x.Call.Args {
-						if a == ssa.Value(val) {
-							uses = true
-						}
+					if a == ssa.Value(val) {
+						ac.val = h.Params[k]
 					}
-					if !uses {
-						return
-					}
-					encs++
-					guarded := false
-					for _, ec := range controlling(x.Block()) {
-						if multi != nil && ec.Cond == ssa.Value(multi) && ec.Pol {
-							guarded = true
-						}
-					}
-					if !guarded {
-						okEnc = false
-					}
-				case *ssa.Convert:
-					if x.X == ssa.Value(val) {
-						if b, ok := x.Type().Underlying().(*types.Basic); ok && b.Kind() == types.Uint8 {
-							bytes++
-						}
-						if b, ok := x.Type().Underlying().(*types.Basic); ok && b.Kind() == types.String {
-							// string(rune) encodes as UTF-8 unconditionally
-							encs++
-							okEnc = false
-						}
+					if multi != nil && a == ssa.Value(multi) {
+						ac.multi = h.Params[k]
 					}
 				}
+				if ac.val != nil {
+					ctxs = append(ctxs, ac)
+				}
 			})
+			for _, ac := range ctxs {
+				val, multi := ac.val, ac.multi
+				allInstrs(ac.g, func(in ssa.Instruction) {
+					switch x := in.(type) {
+					case *ssa.Call:
+						cal := x.Call.StaticCallee()
+						if cal == nil || cal.Pkg == nil || cal.Pkg.Pkg.Path() != "unicode/utf8" || !strings.HasPrefix(cal.Name(), "EncodeRune") && !strings.HasPrefix(cal.Name(), "AppendRune") {
+							return
+						}
+						uses := false
+						for _, a := range x.Call.Args {
+							if a == val {
+								uses = true
+							}
+						}
+						if !uses {
+							return
+						}
+						encs++
+						guarded := false
+						for _, ec := range controlling(x.Block()) {
+							if multi != nil && ec.Cond == multi && ec.Pol {
+								guarded = true
+							}
+						}
+						if !guarded {
+							okEnc = false
+						}
+					case *ssa.Convert:
+						if x.X == val {
+							if b, ok := x.Type().Underlying().(*types.Basic); ok && b.Kind() == types.Uint8 {
+								bytes++
+							}
+							if b, ok := x.Type().Underlying().(*types.Basic); ok && b.Kind() == types.String {
+								// string(rune) encodes as UTF-8 unconditionally
+								encs++
+								okEnc = false
+							}
+						}
+					}
+				})
+			}
 			r.Ob("ASSEMBLE", key+" encodes the value as UTF-8 only when unquoteChar reports multibyte", t.Pos(call.Pos()), okEnc && encs > 0 && bytes > 0,
 				fmt.Sprintf("%d UTF-8 encodings of the value (all on the multibyte==true edge: %v), %d single-byte appends — \\x80…\\xff and \\200…\\377 denote one byte, not a rune", encs, okEnc, bytes))
 		}
@@ -804,4 +843,98 @@ func reportsParseErr(f *ssa.Function, depth int) bool {
 		}
 	}
 	return len(sites) > 0
+}
+
+// c07NumbersSpec: newNumberLiteral specialised with the two strconv results as symbols (helpers inlined, structs
+// tracked): (1) ParseInt is called on the token text with base 0 and 64 bits, ParseFloat with 64 bits; (2) whenever
+// ParseInt succeeded the node built is the integer literal holding ParseInt's value and ParseFloat plays no part;
+// (3) otherwise, if ParseFloat succeeded, the node is the float literal holding ParseFloat's value; (4) if both
+// failed no node is built.
+func c07NumbersSpec(f *ssa.Function) (okInt, okFloat, okIntVal, okFloatVal bool) {
+	cfg := &specCfg{MaxLoop: 2, MaxDepth: 4, MaxAlts: 16, Consistent: true}
+	intArgs, floatArgs := "", ""
+	cfg.Call = func(fn *ssa.Function, call *ssa.Call, nth int, args []sval) (sval, bool) {
+		cal := call.Call.StaticCallee()
+		if cal == nil {
+			return sval{}, false
+		}
+		switch cal.Name() {
+		case "ParseInt":
+			intArgs = fmt.Sprint(args)
+			return sval{tup: []sval{symv("INTVAL"), symv("interr")}}, true
+		case "ParseFloat":
+			floatArgs = fmt.Sprint(args)
+			return sval{tup: []sval{symv("FLOATVAL"), symv("floaterr")}}, true
+		case "LnCol", "PositionRange":
+			return symv(cal.Name()), true
+		case "addParseErrf", "addParseErr":
+			return symv("effect:parse-error"), true
+		case "WrapIntegerLiteral":
+			return symv("IntegerNode" + args[0].String()), true
+		case "WrapFloatLiteral":
+			return symv("FloatNode" + args[0].String()), true
+		}
+		return sval{}, false
+	}
+	var args []sval
+	for _, p := range f.Params {
+		args = append(args, symv(p.Name()))
+	}
+	outs, ab := cfg.run(f, args)
+	if ab != "" || len(outs) == 0 || len(f.Params) < 2 {
+		return
+	}
+	text := f.Params[1].Name() + ".Val"
+	okInt = strings.HasPrefix(intArgs, "["+text+" 0 64")
+	okFloat = strings.HasPrefix(floatArgs, "["+text+" 64")
+	okIntVal, okFloatVal = true, true
+	sawInt, sawFloat := false, false
+	for _, o := range outs {
+		if len(o.Vals) != 1 {
+			return false, false, false, false
+		}
+		lits := map[string]bool{}
+		for _, cd := range condsOnly(o.Cond) {
+			lits[canonLit(cd)] = true
+		}
+		if os.Getenv("PLVERIF_DEBUG") == "numbers" {
+			fmt.Fprintln(os.Stderr, "NUMBERS", o.Vals, sortedKeys(lits))
+		}
+		intOK := lits["+interr == nil"] || lits["+nil == interr"]
+		intFail := lits["-interr == nil"] || lits["-nil == interr"]
+		floatOK := lits["+floaterr == nil"] || lits["+nil == floaterr"]
+		floatSeen := floatOK || lits["-floaterr == nil"] || lits["-nil == floaterr"]
+		v := o.Vals[0].String()
+		switch {
+		case intOK:
+			sawInt = true
+			if !strings.HasPrefix(v, "IntegerNode") || !strings.Contains(v, "INTVAL") {
+				okIntVal = false
+			}
+			if floatSeen {
+				okFloat = false // the float conversion decided something although the integer conversion succeeded
+			}
+		case intFail && floatOK:
+			sawFloat = true
+			if !strings.HasPrefix(v, "FloatNode") || !strings.Contains(v, "FLOATVAL") {
+				okFloatVal = false
+			}
+		case intFail && floatSeen:
+			if !o.Vals[0].nil {
+				okFloatVal = false
+			}
+		default:
+			// a path on which the integer conversion was not consulted
+			if strings.HasPrefix(v, "IntegerNode") || strings.HasPrefix(v, "FloatNode") {
+				okIntVal, okFloatVal = false, false
+			}
+		}
+	}
+	if !sawInt {
+		okIntVal = false
+	}
+	if !sawFloat {
+		okFloatVal, okFloat = false, false
+	}
+	return
 }
